@@ -41,9 +41,56 @@ def run(ctx, ss):
     # accessor applied to this decay line (C01.4 / C16.9 shared), nothing on the way is memoised on a tree or a parser
     from .c01 import details_fields
     ctx.guard("C04.5", details_fields, ss, "C04.5")
+    ctx.guard("C04.6", c04_6, ss)
     from .shared import memo_discipline
     ctx.guard("C04.5", memo_discipline, ss, "C04.5", ["dec/dec.py:DecFileParser.list_decay_modes", "dec/dec.py:DecFileParser._decay_mode_details", "dec/dec.py:DecFileParser.build_decay_chains",
                                                     "decay/decay.py:DecayMode.charge_conjugate", "decay/decay.py:DaughtersDict.charge_conjugate"], "a conjugated table")
+
+
+def c04_6(ctx, ss):
+    """The particle table the package ships and loads into the database when an AmpGen model is read
+    (data/MintDalitzSpecialParticles.csv, `Particle.load_table(..., append=True)`): conjugation of its entries is
+    `invert()`, which follows the table's `Anti` column (0 = the particle is its own antiparticle).  A particle whose
+    negative ID is also listed must not be flagged 0 -- invert() would return the particle itself and the ID would not be
+    negated -- and a particle flagged 0 must have no negative-ID partner."""
+    import csv
+    import io
+    rel = "src/decaylanguage/data/MintDalitzSpecialParticles.csv"
+    if rel not in ss.files:
+        raise AnchorMissing("data/MintDalitzSpecialParticles.csv not found")
+    rows = list(csv.DictReader(io.StringIO(ss.files[rel])))
+    if not rows or "ID" not in rows[0] or "Anti" not in rows[0]:
+        raise AnchorMissing("MintDalitzSpecialParticles.csv: columns ID / Anti not found")
+    by_id = {}
+    for r in rows:
+        if not (r.get("ID") or "").strip():
+            continue            # separator row
+        try:
+            by_id[int(r["ID"])] = (int(r["Anti"]), r.get("Name", "?"), int(r.get("Charge", "0") or 0))
+        except ValueError:
+            ctx.violation("C04.6", "data/MintDalitzSpecialParticles.csv :: row", rel, f"row with ID `{r.get('ID')}` has a non-numeric ID / Anti / Charge")
+            return
+    # a particle with non-zero charge is never its own antiparticle: flagged 0 it would be conjugated to itself
+    # (neutral place-holder objects such as NonRes* / KPi* are outside the property: they are no EvtGen / PDG particles)
+    bad = None
+    n_ch = 0
+    for i_, (anti, name, ch) in sorted(by_id.items()):
+        if ch == 0:
+            continue
+        n_ch += 1
+        if anti == 0:
+            bad = f"{name} (ID {i_}, charge {ch}/3) is flagged self-conjugate (Anti=0): once this table is loaded its conjugate is reported as the particle itself and the ID is not negated"
+            break
+        if -i_ not in by_id:
+            bad = f"{name} (ID {i_}, charge {ch}/3) has no row with ID {-i_}: its conjugate cannot be found once this table is loaded"
+            break
+        if by_id[-i_][2] != -ch:
+            bad = f"{name}: the rows {i_} and {-i_} do not carry opposite charges"
+            break
+    (ctx.holds if not bad else ctx.violation)("C04.6", "data/MintDalitzSpecialParticles.csv :: conjugates", rel,
+                                              f"{n_ch} charged entries of the shipped special-particle table: each is flagged as having an antiparticle, and the row with the negated ID carries the opposite charge"
+                                              if not bad else bad)
+    ctx.floor("C04.6", "rows of the special-particle table", len(by_id), 40)
 
 
 def c04_1(ctx, ss):
